@@ -34,10 +34,25 @@ type RF struct {
 	Neg bool `json:"neg"` // number sign
 	I   int  `json:"i"`   // small integer view (clamped)
 	Bo  bool `json:"b"`   // boolean value
+
+	full string // when non-empty: the string really sent (S is then its equivalent short form, see rfStrLong)
 }
 
 func rfAbsent() RF      { return RF{S: B{}, W: W64(0)} }
 func rfStr(s string) RF { return RF{P: true, S: S(s), W: W64(0)} }
+
+// rfStrLong sends a very long run of one character but logs only its first 2001 bytes; callers choose
+// lengths congruent to 2001 modulo 8 so that the logged form falls into the same classes of the
+// specification (undecodable length, not blank, longer than any code) as the string really sent.
+func rfStrLong(s string) RF {
+	if len(s) <= 2001 {
+		return rfStr(s)
+	}
+	if (len(s)-2001)%8 != 0 {
+		panic("rfStrLong: length class not preserved")
+	}
+	return RF{P: true, S: S(s[:2001]), W: W64(0), full: s}
+}
 func rfNum(v uint64) RF { return RF{P: true, S: B{}, W: W64(v), I: clamp32(int(v & 0x3fffffff))} }
 func rfInt(v int64) RF {
 	if v < 0 {
@@ -73,6 +88,9 @@ type restEvent struct {
 	Resp      map[string]any `json:"resp"`
 	T0        B              `json:"t0"`
 	T1        B              `json:"t1"`
+	Step0     B              `json:"step0"`
+	Step1     B              `json:"step1"`
+	SuCfg     Cfg            `json:"sucfg"`
 	Orc       []Mac          `json:"orc"`
 	LibSuites []B            `json:"libsuites"`
 	R         any            `json:"r,omitempty"`
@@ -95,7 +113,11 @@ func (q RReq) body() []byte {
 	var parts []string
 	str := func(name string, f RF) {
 		if f.P {
-			v, _ := json.Marshal(string(f.S))
+			val := string(f.S)
+			if f.full != "" {
+				val = f.full
+			}
+			v, _ := json.Marshal(val)
 			parts = append(parts, fmt.Sprintf("%q:%s", name, v))
 		}
 	}
@@ -207,7 +229,8 @@ func newClient(id int, keepAlive bool, deadline time.Duration) *client {
 
 // send issues one request and records the exchange.
 func (d *restDriver) send(c *client, scn, method, path, query, cls string, probe bool, q RReq, rawBody []byte) restEvent {
-	ev := restEvent{Scn: scn, Conn: c.id, Path: path, Method: method, Cls: cls, Probe: probe, Req: q.asMap(), Orc: []Mac{}, LibSuites: []B{}}
+	ev := restEvent{Scn: scn, Conn: c.id, Path: path, Method: method, Cls: cls, Probe: probe, Req: q.asMap(), Orc: []Mac{}, LibSuites: []B{},
+		Step0: W64(0), Step1: W64(0), SuCfg: Cfg{Raw: B{}}, T0: W64(0), T1: W64(0)}
 	body := rawBody
 	if body == nil && method == "POST" {
 		body = q.body()
